@@ -19,3 +19,4 @@ def rules(ctx):
     S.open_reads_within_length_rules(ctx)
     S.own_growth_rules(ctx)
     S.round5_rules(ctx)
+    S.round6_rules(ctx)
